@@ -31,7 +31,7 @@ BOUND = {
     "thorough": "L(6,3) x all pairs x 6 shapes with default names; L(5,3) x {prefix, suffix, equal} one-name deviations over all ordered node pairs x {plain, two}; error-side catalogue",
 }
 # as-built additions to the bound (kept next to BOUND so that the evidence reports them)
-BOUND = {k: v + "; plus: " + 'deep layouts: referrer and target on branches of depth 0..3 (quick) / 0..4 (thorough) below a shared repeat or group under 0..2 wrappers; equal-name deviations on L(4,3) in the quick tier; ambiguous names with 2-5 copies' for k, v in BOUND.items()}
+BOUND = {k: v + "; plus: " + 'group and repeat targets (count(${section}) and the like) incl. sections enclosing the referrer; deep layouts: referrer and target on branches of depth 0..3 (quick) / 0..4 (thorough) below a shared repeat or group under 0..2 wrappers; equal-name deviations on L(4,3) in the quick tier; ambiguous names with 2-5 copies' for k, v in BOUND.items()}
 
 NAMES = ["a", "b", "c", "d", "e", "f", "g", "h", "i", "j", "k", "l", "m", "n", "o", "p"]
 CHOICES = [{"list_name": "c", "name": "x", "label": "X", "cf": "1"}, {"list_name": "c", "name": "y", "label": "Y", "cf": "2"}]
@@ -234,6 +234,10 @@ def expand(block, tier):
     qs = [nd["i"] for nd in nodes if nd["kind"] == "q"]
     reps = [nd["i"] for nd in nodes if nd["kind"] == "r"]
     if block[0] == "default":
+        conts = [nd["i"] for nd in nodes if nd["kind"] != "q"]
+        for xi in qs:
+            for ti in conts:
+                yield {"f": fj, "dev": None, "x": xi, "t": ti, "shape": "cont"}
         for xi in range(n):
             for ti in qs:
                 for shape in SHAPES:
@@ -292,7 +296,7 @@ def build(case):
     nodes = flatten(forest, names)
     xi, ti, shape = case["x"], case["t"], case["shape"]
     t = nodes[ti]["name"]
-    ui = next_q(nodes, ti)
+    ui = next_q(nodes, ti) if nodes[ti]["kind"] == "q" else next(nd["i"] for nd in nodes if nd["kind"] == "q")
     u = nodes[ui]["name"]
     X = nodes[xi]
     cells = {}  # cell -> source text
@@ -329,6 +333,9 @@ def build(case):
                      "choice_filter": f"name = ${{{t}}}"}
         elif shape == "trigger":
             cells = {"trigger": f"${{{t}}}", "calculation": f"${{{u}}} + 105"}
+        elif shape == "cont":
+            # the target is a group or repeat (count(${section}) and the like), possibly one that encloses the referrer
+            cells = {"calculation": f"count(${{{t}}}) + 105", "relevant": f"count(${{{t}}}) > ${{{u}}}", "label": f"L ${{{t}}} l", "constraint": f". < count(${{{t}}})"}
     else:
         if shape == "plain":
             cells = {"label": f"L ${{{t}}} l", "relevant": f"${{{t}}} = 101", "instance::ia": f"${{{t}}}"}
